@@ -174,7 +174,23 @@ class Builder:
             vals = [unS(s) for s in r[3]]
             if dt.kind == "c":
                 vals = [complex(vals[i], vals[i + 1]) for i in range(0, len(vals), 2)]
-            return np.array(vals, dtype=dt).reshape(r[2])
+            a = np.array(vals, dtype=dt).reshape(r[2])
+            lay = r[4] if len(r) > 4 else "C"
+            # memory layout classes with the SAME logical array: Fortran order, transposed view,
+            # step-sliced view of a larger buffer, negative strides, read-only
+            if lay == "F":
+                a = np.asfortranarray(a)
+            elif lay == "T" and a.ndim >= 2:
+                a = np.ascontiguousarray(a.T).T
+            elif lay == "S" and a.ndim >= 1 and a.shape[0] > 0:
+                big = np.zeros((2 * a.shape[0],) + a.shape[1:], dtype=dt)
+                big[::2] = a
+                a = big[::2]
+            elif lay == "N" and a.ndim >= 1:
+                a = np.flip(np.flip(a, axis=0).copy(), axis=0)
+            elif lay == "RO":
+                a.setflags(write=False)
+            return a
         if t == "mk_tensor":      # ["mk_tensor", dtype, shape, requires_grad, origin, values]
             # origin: False = plain leaf, True = nn.Parameter, "nonleaf" = result of a computation
             # (has a grad_fn; requires_grad comes from the graph), "view" = a view into a larger storage
@@ -276,7 +292,8 @@ def gen_ndarray(rng):
     n = 1
     for s in shape:
         n *= s
-    return ["nd", str(np.dtype(dt)), shape, small_vals(rng, dt, n)]
+    lay = rng.weighted([("C", 5), ("F", 1), ("T", 1), ("S", 1), ("N", 1), ("RO", 1)])
+    return ["nd", str(np.dtype(dt)), shape, small_vals(rng, dt, n), lay]
 
 
 def gen_npscalar(rng):
